@@ -79,13 +79,16 @@ def workload_candidates(scn):
             c["tasks"].pop()
             for p in c["procs"]:
                 p["plan"] = [op for op in p.get("plan", []) if not (len(op) > 1 and op[1] == last and op[0] in ("submit", "dup", "resubmit", "wait", "mutate"))]
-            c["jobfaults"] = [jf for jf in c.get("jobfaults", []) if jf["x"] != last]
+            c["jobfaults"] = [jf for jf in c.get("jobfaults", []) if jf.get("x") != last]
             out.append(c)
     # drop edges, tokens, failures
     for x, t in enumerate(scn.get("tasks", [])):
         for j in range(len(t.get("deps", []))):
             c = copy.deepcopy(scn)
+            u, e = c["tasks"][x]["deps"][j]
             del c["tasks"][x]["deps"][j]
+            if e == "wrapped":
+                c["tasks"][x]["deps"] = [d for d in c["tasks"][x]["deps"] if not (isinstance(d[1], list) and d[1][1] == u)]
             out.append(c)
         for j in range(len(t.get("tok", []))):
             c = copy.deepcopy(scn)
@@ -94,10 +97,6 @@ def workload_candidates(scn):
         if t.get("out") and t["out"] != ["ok"]:
             c = copy.deepcopy(scn)
             c["tasks"][x]["out"] = ["ok"]
-            out.append(c)
-        if t.get("kind") != "leaf" and not t.get("deps"):
-            c = copy.deepcopy(scn)
-            c["tasks"][x]["kind"] = "leaf"
             out.append(c)
     # lower token totals / requests
     for ti, tok in enumerate(scn.get("tokens", [])):
